@@ -51,6 +51,17 @@ def _build(spec, n_ids):
             m.set_population_parameters([list(p) for p in spec['sel']])
         return m
     if k == 'Comp':
+        if spec.get('shared'):
+            # equal parts are one and the same object listed several times
+            import json
+            made = {}
+            subs = []
+            for p in spec['parts']:
+                key = json.dumps(p, sort_keys=True)
+                if key not in made:
+                    made[key] = _build(p, n_ids)
+                subs.append(made[key])
+            return chi.ComposedPopulationModel(subs)
         return chi.ComposedPopulationModel(
             [_build(p, n_ids) for p in spec['parts']])
     if k == 'Red':
